@@ -136,7 +136,7 @@ inline OItem genItem(Src &s) {
         case 1: it.kind = s.coin() ? O_U32 : O_U16; it.u = s.range(0, 65535); it.base = bases[s.range(0, 3)]; break;
         case 2: it.kind = s.coin() ? O_I64 : O_U64; it.u = s.u64() >> s.range(0, 63); it.base = bases[s.range(0, 3)]; break;
         case 3: it.kind = O_BOOL; it.u = s.coin(); break;
-        case 4: it.kind = s.coin() ? O_F64 : O_F32; it.d = (double) s.irange(-5000, 5000) / (double) (1 << s.range(0, 8)); break;
+        case 4: it.kind = s.coin() ? O_F64 : O_F32; it.d = (double) s.irange(-5000, 5000) / (double) (1 << s.range(0, 2)); break;   // exactly representable in 6 digits: the same text in every formatter
         case 5: it.kind = O_MNEM; it.s = s.pick(std::vector<std::string>{"OK", "VOLT", "a_1", "0"}); break;
         case 6: { it.kind = O_TEXT; size_t n = s.range(0, 10); for (size_t i = 0; i < n; i++) it.s += s.prob(1, 4) ? '"' : (char) s.range(0x20, 0x7e); break; }
         case 7: { it.kind = O_BLOCK; size_t n = s.range(0, 12); for (size_t i = 0; i < n; i++) it.s += (char) s.range(0, 255); break; }
